@@ -10,7 +10,7 @@
      spec_*         "for each chromosome the single-contig kernel on that chromosome's entries alone"
      model_*        the code's algorithm in concatenated coordinates *)
 From Coq Require Import ZArith List Bool Permutation Sorted Lia.
-From BNP Require Import Base.Prims Model.C10 Proofs.C10 Proofs.C10_b Proofs.C10_c.
+From BNP Require Import Base.Prims Model.C10 Proofs.C10 Proofs.C10_b Proofs.C10_c Gen.C10 Bridge.C10.
 Import ListNotations.
 Open Scope Z_scope.
 
@@ -146,6 +146,88 @@ Print Assumptions C10_location_pinned_refuted.
 Theorem C10_location_fixed : forall st w e, 0 <= w <= 2 -> model_location_fixed st w e = spec_location st w e.
 Proof. exact location_fixed_spec. Qed.
 Print Assumptions C10_location_fixed.
+
+(* Source tie: the arithmetic regenerated from /repo on this run (Gen/C10.v, written by translate/run.py through
+   translate/gen_c10.py from global_offset.py, genomic_intervals.py, geometry.py and arithmetics/intervals.py) is the
+   arithmetic of the model the theorems above are about: (a) every generated definition equals the model's named
+   helper, (b) the model functions are those helpers put together. *)
+Theorem C10_source_tie :
+  (* (a) GlobalOffset: from_local_coordinates, to_local_coordinates, to_local_interval, start_ends_from_intervals *)
+  (forall size o p a g s t,
+      gen_from_local_reject size p = m_from_local_reject size p
+      /\ gen_from_local_value o p = m_from_local_value o p
+      /\ gen_to_local_idx m_searchsorted a g = m_to_local_idx (searchsorted_right a g)
+      /\ gen_to_local_pos o g = m_to_local_pos o g
+      /\ gen_tli_idx m_searchsorted a g = m_to_local_idx (searchsorted_right a g)
+      /\ gen_tli_start o g = m_to_local_pos o g /\ gen_tli_stop o g = m_to_local_pos o g
+      /\ gen_tli_assert o size g = m_stop_fits size (m_to_local_pos o g)
+      /\ gen_se_check size s t = m_entry_check true size s t
+      /\ gen_se_start o s = m_global o s /\ gen_se_stop o t = m_global o t)
+  (* (a) get_windows, clip (GenomicIntervalsFull and Geometry), extend_to_size, get_location *)
+  /\ (forall f w p l r size s t n fwd is_start,
+        (gen_win_flank_l f = m_flank_l f /\ gen_win_flank_r f = m_flank_r f)
+        /\ (gen_win_size_l w = m_wsize_l w /\ gen_win_size_r w = m_wsize_r w)
+        /\ (gen_win_start p l r = m_win_start p l /\ gen_win_stop p l r = m_win_stop p r)
+        /\ (gen_clip_start size s = m_clip_start s /\ gen_clip_stop size t = m_clip_stop size t)
+        /\ (gen_geo_clip_start size s = m_geo_clip_start size s /\ gen_geo_clip_stop size t = m_geo_clip_stop size t)
+        /\ (gen_extend_start fwd s t n size = m_extend_start fwd s t n
+            /\ gen_extend_stop fwd s t n size = m_extend_stop fwd s t n size)
+        /\ gen_loc_unstranded is_start s t = m_loc_unstranded is_start s t
+        /\ gen_loc_stranded is_start fwd s t = m_loc_stranded is_start fwd s t
+        /\ gen_loc_center s t = m_loc_center s t)
+  (* (a) merged / Geometry.merge_intervals: chromosome index * (distance + 1) on top of the offset *)
+  /\ (forall x o c d,
+        gen_merged_assert d = negb (d <? 0)
+        /\ (gen_merged_fwd_start (m_global o x) c d = x + m_shift o c d
+            /\ gen_merged_fwd_stop (m_global o x) c d = x + m_shift o c d
+            /\ gen_merged_shift o c d = m_shift o c d
+            /\ gen_merged_back_start x o c d = x - m_shift o c d
+            /\ gen_merged_back_stop x o c d = x - m_shift o c d)
+        /\ (gen_geo_merged_fwd_start (m_global o x) c d = x + m_shift o c d
+            /\ gen_geo_merged_fwd_stop (m_global o x) c d = x + m_shift o c d
+            /\ gen_geo_merged_shift o c d = m_shift o c d
+            /\ gen_geo_merged_back_start x o c d = x - m_shift o c d
+            /\ gen_geo_merged_back_stop x o c d = x - m_shift o c d))
+  (* (b) the model functions are these helpers put together *)
+  /\ (forall szs c p, from_local szs c p
+        = if m_from_local_reject (size_of szs c) p then None else Some (m_from_local_value (off szs c) p))
+  /\ (forall szs g, to_local szs g
+        = let idx := m_to_local_idx (searchsorted_right (offsets szs) g) in (idx, m_to_local_pos (off szs idx) g))
+  /\ (forall neg szs es, check_bounds_gen neg szs es = None
+        <-> Forall (fun e => m_entry_check neg (size_of szs (e_chr e)) (e_start e) (e_stop e) = 0) es)
+  /\ checks_negative_start = true
+  /\ (forall szs es, globalise szs es
+        = map (fun e => set_se e (m_global (off szs (e_chr e)) (e_start e)) (m_global (off szs (e_chr e)) (e_stop e))) es)
+  /\ (forall szs es, model_clip szs es
+        = map (fun e => set_se e (m_clip_start (e_start e)) (m_clip_stop (size_of szs (e_chr e)) (e_stop e))) es)
+  /\ (forall szs n es, model_extend szs n es
+        = map (fun e => set_se e (m_extend_start (e_fwd e) (e_start e) (e_stop e) n)
+                                 (m_extend_stop (e_fwd e) (e_start e) (e_stop e) n (size_of szs (e_chr e)))) es)
+  /\ (forall szs l r es, model_windows szs l r es
+        = map (fun e => set_se e (m_clip_start (m_win_start (e_start e) l))
+                                 (m_clip_stop (size_of szs (e_chr e)) (m_win_stop (e_start e) r))) es)
+  /\ (forall st w e, model_location st w e
+        = if (w =? 0) || (w =? 1)
+          then (if negb st then m_loc_unstranded (w =? 0) (e_start e) (e_stop e)
+                else m_loc_stranded (w =? 0) (e_fwd e) (e_start e) (e_stop e))
+          else m_loc_center (e_start e) (e_stop e))
+  /\ (forall szs d c, gap_shift szs d c = m_shift (off szs c) c d)
+  /\ (forall szs us d es, model_merged szs us d es = model_merged_fixed szs us d es)
+  /\ (forall szs d es, model_geo_merge szs d es = model_merged_fixed szs [] d es).
+Proof.
+  exact (conj (fun size o p a g s t =>
+           conj (b_from_local_reject size p) (conj (b_from_local_value o p) (conj (b_to_local_idx a g)
+           (conj (b_to_local_pos o g) (conj (b_tli_idx a g) (conj (b_tli_start o g) (conj (b_tli_stop o g)
+           (conj (b_tli_assert o size g) (conj (b_se_check size s t) (conj (b_se_start o s) (b_se_stop o t)))))))))))
+        (conj (fun f w p l r size s t n fwd is_start =>
+           conj (b_win_flank f) (conj (b_win_size w) (conj (b_win_iv p l r) (conj (b_clip size s t)
+           (conj (b_geo_clip size s t) (conj (b_extend fwd s t n size) (conj (b_loc_unstranded is_start s t)
+           (conj (b_loc_stranded is_start fwd s t) (b_loc_center s t)))))))))
+        (conj (fun x o c d => conj (b_merged_assert d) (conj (b_merged x o c d) (b_geo_merged x o c d)))
+        (conj l_from_local (conj l_to_local (conj l_check_bounds (conj l_checks_negative (conj l_globalise
+        (conj l_clip (conj l_extend (conj l_windows (conj l_location (conj l_gap_shift (conj l_merged l_geo_merge)))))))))))))).
+Qed.
+Print Assumptions C10_source_tie.
 
 (* non-vacuity: three chromosomes (the middle one without intervals), an interval ending exactly at the end of
    the first and one starting at 0 of the last; the hypotheses hold and the executable model keeps them apart *)
